@@ -17,6 +17,7 @@ arrivals, any instants, durations, failing runs and same-instant placements; not
 -/
 import EdzedModel.OutputAsync
 import EdzedProofs.OutputAsync
+import EdzedProofs.OutputAsyncTie
 
 namespace Edzed.OutputAsync
 
@@ -342,3 +343,30 @@ example :
     (final c ops).output = 0 := by decide +kernel
 
 end Edzed.OutputAsync
+
+/-! ## Tie by translation
+
+`tools/py2lean_oasync.py` regenerates `EdzedModel/Gen/TranslatedOutputAsync.lean` from the CURRENT source of
+`OutputAsync._ctrl_cancel/_ctrl_wait/_ctrl_start/_output_coro/_output_coro_wrapper/_event_put/stop/stop_async`
+and `utils.shield_cancel` on every run: each `await` is a primitive call, a `while True` loop is one iteration
+function plus fuel.  The theorems below run these programs on primitives that are the operations of the model
+(`EdzedProofs/OutputAsyncTie.lean`) and say that they compute the model's steps.  A semantic edit of one of
+the methods changes the generated program and breaks the theorem about it. -/
+
+namespace Edzed.TrTie
+open Edzed.OutputAsync Edzed.OutputAsync.Shield Edzed.Gen.TrD Edzed.Gen.TrOA
+
+/-- **`shield_cancel` as translated IS the model's `shieldCancel`**: for every script of what the successive
+    `await asyncio.shield(task)` yield, the translated function re-awaits the shielded task after each
+    cancellation, returns its value if there was none, re-raises the last cancellation when the task has
+    finished, and lets a cancellation that finds the task done (and any other exception) propagate at once
+    (`fuel` = any number above the number of awaits) -/
+theorem translated_outputasync_shield_cancel_is_model {ε ν : Type} (script : List (Step ε ν)) (fuel : Nat)
+    (h : script.length < fuel) :
+    shieldOut ((shield_cancel (shieldP (ε := ε) (ν := ν)) fuel () ⟨script, false⟩).2)
+      = shieldCancel script none := by
+  have := shield_loop_model script none none false fuel h
+  simp only [Option.map] at this
+  rw [← this, shield_cancel_unfold]
+
+end Edzed.TrTie
